@@ -1449,6 +1449,8 @@ static int _handle_sm(xmpp_conn_t *const conn,
         strophe_debug(conn->ctx, "xmpp", "Session resumed successfully.");
         _stream_negotiation_success(conn);
     } else if (strcmp(name, "failed") == 0) {
+        int resuming = conn->sm_state->resume;
+
         name = NULL;
         conn->sm_state->sm_enabled = 0;
 
@@ -1484,7 +1486,18 @@ static int _handle_sm(xmpp_conn_t *const conn,
         bind = conn->sm_state->bind;
         conn->sm_state->bind = NULL;
         reset_sm_state(conn->sm_state);
-        _do_bind(conn, bind);
+        if (bind) {
+            /* resumption failed, bind a new session */
+            _do_bind(conn, bind);
+        } else if (resuming) {
+            strophe_error(conn->ctx, "xmpp",
+                          "Resumption failed and the stream features "
+                          "do not allow resource bind.");
+            xmpp_disconnect(conn);
+        } else {
+            /* <enable/> was refused, go on without stream management */
+            _stream_negotiation_success(conn);
+        }
     } else {
         /* unknown stanza received */
         name = NULL;
